@@ -91,6 +91,33 @@ WITNESSES = [
 ]
 
 
+def reapply_family():
+    """`^~` reached through groups, conditional arms, else arms and `&&` / `||` operands, one and two levels deep:
+    which expression a re-apply restarts (and with which conditions re-evaluated) shows in the final value"""
+    def guard(n): return ("B", "lt", "$", ("i", n))
+    def chain(k): return ("E", ("C", 0, guard(3), ("R", ("B", "add", "$", ("i", k)))), "$")
+    ctxs = [
+        lambda x: x,
+        lambda x: ("G", x),
+        lambda x: ("E", ("C", 0, guard(5), ("G", x)), ("i", 100)),
+        lambda x: ("E", ("C", 1, guard(5), ("i", 100)), ("G", x)),
+        lambda x: ("&", guard(5), ("G", x)),
+        lambda x: ("O", ("B", "ge", "$", ("i", 5)), ("G", x)),
+        lambda x: ("E", ("C", 0, ("B", "ge", "$", ("i", 9)), ("i", 50)), ("G", x)),
+    ]
+    out = []
+    for k in (1, 7):
+        for i, c1 in enumerate(ctxs):
+            for j, c2 in enumerate(ctxs):
+                if i and j == 0:
+                    continue
+                body = c1(c2(chain(k)))
+                out.append((("B", "app", ("N", 1, body), ("i", 0)), "U", "-", "reapply-nest"))
+                out.append((("B", "add", ("G", ("B", "app", ("N", 1, body), ("i", 1))), ("i", 10)), "U", "-", "reapply-nest"))
+                out.append((body, "i0", "-", "reapply-nest"))
+    return out
+
+
 # -------------------------------------------------------------- running + deciding
 def repaired(e, in_chain=False):
     """give every else-chain that lacks a final else the fall-through the language intends: `|> $`"""
@@ -259,6 +286,8 @@ def run(tier, seed):
     if built:
         rng = vplib.rng_for(seed, "C01")
         for ast, inp, host, tag in WITNESSES:
+            cases.append(X.Case(X.relabel(ast), "min", inp, host, tag))
+        for ast, inp, host, tag in reapply_family():
             cases.append(X.Case(X.relabel(ast), "min", inp, host, tag))
         lat = operand_lattice()
         cases += [X.Case(X.relabel(e), "min", "U", "-", tag) for e, tag in (lat if tier == "thorough" else rng.sample(lat, 2500))]
